@@ -220,6 +220,7 @@ void HistSim::opSer(const Op& op, size_t ix) {
                                             std::to_string(out.size()) + " bytes, measure says " + std::to_string(m));
     if (t_)
       t_->u(hashStr(out));
+    obs.u(hashStr(out));
     uint64_t after = 0;
     for (auto& a : allocs_)
       after += a->calls();
@@ -367,6 +368,82 @@ void HistSim::opFill(const Op& op, size_t ix) {
   }
 }
 
+// operations that read a document shared (read-only) by all tasks: copy source, filter,
+// comparison operand, serialization source
+void HistSim::opShared(const Op& op, size_t ix) {
+  if (!opt.shared) {
+    lastSkip = "no-shared-document";
+    return;
+  }
+  Ref* h = resolve(op, "h");
+  if (h->view != 'v') {
+    lastSkip = "view";
+    return;
+  }
+  std::string what = op.str("what", "copy");
+  int doc = h->doc;
+  Val* node = findNode(doc, h->node);
+  JsonVariantConst sv = opt.shared->as<JsonVariantConst>();
+  const Val* sm = &opt.sharedModel;
+  // optionally a member of the shared document
+  if (op.has("k") && sm->k == K::Obj && !sm->o.empty()) {
+    auto& m = sm->o[size_t(op.unum("k") % sm->o.size())];
+    sv = sv[m.first];
+    sm = &m.second;
+  }
+  Judge j;
+  beginOp(j, doc, pathOf(doc, h->node));
+  if (what == "copy") {
+    assignContent(*node, *sm);
+    if (real_) {
+      startFaults(op);
+      j.actual = realVariant(*h).set(sv);
+    }
+  } else if (what == "filter") {
+    Val v = parseText(op.str("v"));
+    normalise(v, kUseDouble);
+    Val image = jsonImage(v, kUseDouble, nullptr, kNaN, kInf);
+    assignContent(*node, project(image, *sm));
+    j.floatsFromText = true;
+    if (real_) {
+      startFaults(op);
+      JsonSpelling sp;
+      sp.nan = kNaN;
+      sp.inf = kInf;
+      sp.rawControl = !kDecodeUnicode;
+      RefJsonWriter w(sp);
+      std::string text = w.write(v);
+      auto err = deserializeJson(realVariant(*h), text, DeserializationOption::Filter(sv),
+                                 DeserializationOption::NestingLimit(40));
+      j.actual = err == DeserializationError::Ok;
+      if (err != DeserializationError::Ok && err != DeserializationError::NoMemory)
+        violate("C04:deserialize-into", std::string("filtered deserialization of a valid text returned ") + err.c_str());
+    }
+  } else {  // ser / cmp: read-only
+    j.hasReturn = false;
+    j.doc = -1;
+    if (real_) {
+      startFaults(op);
+      std::string out;
+      serializeJson(sv, out);
+      std::string mp;
+      serializeMsgPack(sv, mp);
+      obs.u(hashStr(out));
+      obs.u(hashStr(mp));
+      bool eq = realConst(*h) == sv;
+      obs.u(eq);
+      RefJsonParser p(out, kUseDouble);
+      p.allowNaN = kNaN;
+      p.allowInf = kInf;
+      auto r = p.parseDocument();
+      std::string why;
+      if (!r.ok || !looselyEqual(jsonImage(*sm, kUseDouble, nullptr, kNaN, kInf), r.value, &why))
+        violate("C20:shared-document", "the shared read-only document serializes to something else than its value: " + why);
+    }
+  }
+  endOp(j, op, ix);
+}
+
 // ======================================================================= stepping
 
 void HistSim::step(const Op& op, size_t ix) {
@@ -411,6 +488,8 @@ void HistSim::step(const Op& op, size_t ix) {
     opCmp(op, ix);
   else if (name == "fill")
     opFill(op, ix);
+  else if (name == "shr")
+    opShared(op, ix);
   else
     throw HarnessError("unknown hist op " + name);
   if (!lastSkip.empty()) {
@@ -620,6 +699,8 @@ struct Gen {
   Op next() {
     auto refs = sim.aliveRefs();
     unsigned sel = unsigned(r.below(1000));
+    if (mode == "conc" && r.chance(1, 4))
+      sel = 905 + unsigned(r.below(95));  // threads mostly meet in serializers and deserializers
     Op op;
     auto via = [&](int n) { op.set("via", int64_t(r.below(uint64_t(n)))); };
     if (sel < 150) {
@@ -719,6 +800,16 @@ struct Gen {
       if (r.chance(1, 3))
         op.set("s", pickSel(*sim.nodeOf(*refs[h]), false).text());
       via(2);
+    } else if (mode == "conc" && sel < 968) {
+      op = mkop("shr");
+      static const char* whats[] = {"copy", "filter", "ser", "cmp"};
+      op.setu("h", pickRef('v')).set("what", whats[r.below(4)]);
+      if (r.chance(1, 2))
+        op.setu("k", r.below(8));
+      GenOpts dv = vo;
+      dv.allowRaw = dv.allowBin = dv.allowLinked = false;
+      dv.maxDepth = 3;
+      op.set("v", toText(genValue(r, dv)));
     } else if (sel < 985) {
       op = mkop("ser");
       static const char* fmts[] = {"json", "pretty", "mp"};
@@ -855,6 +946,14 @@ RunResult runOnce(const Plan& plan, const Options& o, char replica, std::string*
 }
 
 }  // namespace
+
+Options optionsOf(const Op& head) {
+  return optionsFromHead(head);
+}
+
+uint64_t runForObs(const Plan& plan, const Options& o) {
+  return runOnce(plan, o, 0, nullptr).obs;
+}
 
 Outcome execute(const Plan& plan) {
   Options o = optionsFromHead(plan.head);
